@@ -90,7 +90,7 @@ func checkC09(c *Ctx) {
 	r.Decides = append(r.Decides,
 		"K1 amplification-site audit of the decode closure: every index-driven cursor over the input only moves forward, except enumerated jump sites; at a jump site (a) jumps do not nest (typestate flag: the jump requires the flag clear, sets it, and it is cleared only where the saved position is restored) and (b) every accumulator grown in that loop is bounded by a dominating comparison of its length with a constant (RFC 1035 §3.1: 255)",
 		"K2 no decoder copies the remainder of its input (ReadAll / CopyN(Len())) inside a loop: nested option lists are parsed from one copy per level",
-		"K3 no allocation inside a decode loop is sized by the length of a loop-carried accumulator (repeated-option reassembly appends only the chunk just consumed)",
+		"K3 no allocation inside a decode loop is sized by the length of a loop-carried accumulator (repeated-option reassembly appends only the chunk just consumed); no accumulator is grown through a capacity-clipped alias of itself",
 		"K4 no encoder invokes ToBytes twice on the same sub-value along a path (re-encoding is linear in the nesting depth, not exponential)")
 	r.NotDecided = append(r.NotDecided, "the numeric statement itself (bytes allocated ≤ k·n + n·depth, size of the decoded value): runtime quantities of the allocator, append growth and string concatenation that no static argument in reach bounds; the clauses above are necessary conditions, not a proof of the bound")
 	e, err := newE4(c, "C09-K1")
@@ -133,6 +133,40 @@ func checkC09(c *Ctx) {
 				"the remainder of the input is copied on every iteration of a loop: quadratic allocation in the input length")
 		})
 	}
+	// K3b: an accumulator is never grown through a capacity-clipped alias of itself (x = append(x[:len(x):len(x)], v)):
+	// that reallocates and copies the whole accumulator on every append — quadratic in the number of elements
+	nApp := 0
+	for _, f := range funcs {
+		if inUio(f) {
+			continue
+		}
+		allInstrs(f, func(in ssa.Instruction) {
+			cl, ok := in.(*ssa.Call)
+			if !ok || !isBuiltinCall(cl.Common(), "append") || len(cl.Call.Args) < 1 {
+				return
+			}
+			nApp++
+			sl, ok := cl.Call.Args[0].(*ssa.Slice)
+			if !ok || sl.Max == nil || sl.Low != nil {
+				return
+			}
+			base := c.Sx().Of(sl.X).String()
+			stored := false
+			for _, ref := range *cl.Referrers() {
+				if st, ok := ref.(*ssa.Store); ok && st.Val == ssa.Value(cl) {
+					if ld, isLd := sl.X.(*ssa.UnOp); isLd && c.Sx().Of(st.Addr).String() == c.Sx().Of(ld.X).String() {
+						stored = true
+					}
+				}
+			}
+			if stored || strings.Contains(base, "load(") || strings.Contains(base, "field[") {
+				r.Violation("C09-K3", shortName(f)+": accumulator grown through a capacity-clipped alias of itself", c.P.ipos(cl),
+					"append("+shortDesc(sl, 3)+", …) stored back into the same list: the clipped capacity forces a reallocation and a copy of the whole list on every append, so building a list of n elements costs O(n²) (65 kB of minimal options → gigabytes allocated)")
+			}
+		})
+	}
+	r.Count("C09-K3-append-sites", nApp)
+	r.Expect("C09-K3-append-sites", 15)
 	r.Count("C09-K1-jump-sites", nJumps)
 	r.Expect("C09-K1-jump-sites", 1)
 	r.Count("C09-K2-remainder-copies", nReadAll)
@@ -476,6 +510,7 @@ func c09Encoders(c *Ctx) {
 			recv string // symx of the receiver, in terms of f's own parameters
 			via  string
 			val  ssa.Value // the receiver value itself (direct sites only)
+			coll string    // symx of the collection the receiver is an element of ("" if none)
 		}
 		// sitesOf: ToBytes call sites of g; helper methods/functions of the module that are not encoders
 		// themselves are expanded (depth ≤ 3) with their parameters replaced by the actual arguments
@@ -490,7 +525,7 @@ func c09Encoders(c *Ctx) {
 				cc := cl.Common()
 				if cc.IsInvoke() {
 					if cc.Method.Name() == "ToBytes" {
-						out = append(out, site{in, c.Sx().Of(cc.Value).String(), "", cc.Value})
+						out = append(out, site{in, c.Sx().Of(cc.Value).String(), "", cc.Value, collectionOf(c, cc.Value)})
 					}
 					return
 				}
@@ -499,20 +534,21 @@ func c09Encoders(c *Ctx) {
 					return
 				}
 				if sf.Name() == "ToBytes" && sf.Signature.Recv() != nil && len(cc.Args) > 0 {
-					out = append(out, site{in, c.Sx().Of(cc.Args[0]).String(), "", cc.Args[0]})
+					out = append(out, site{in, c.Sx().Of(cc.Args[0]).String(), "", cc.Args[0], collectionOf(c, cc.Args[0])})
 					return
 				}
 				if depth >= 3 || sf.Name() == "Marshal" || sf.Name() == "String" || sf.Name() == "Summary" {
 					return
 				}
 				for _, s2 := range sitesOf(sf, depth+1) {
-					rs := s2.recv
+					rs, cs := s2.recv, s2.coll
 					for i, a := range cc.Args {
 						if i < len(sf.Params) {
 							rs = strings.ReplaceAll(rs, c.Sx().Of(sf.Params[i]).String(), c.Sx().Of(a).String())
+							cs = strings.ReplaceAll(cs, c.Sx().Of(sf.Params[i]).String(), c.Sx().Of(a).String())
 						}
 					}
-					out = append(out, site{in, rs, shortName(sf), nil})
+					out = append(out, site{in, rs, shortName(sf), nil, cs})
 				}
 			})
 			return out
@@ -525,7 +561,12 @@ func c09Encoders(c *Ctx) {
 					continue
 				}
 				sameVal := sites[i].val != nil && sites[i].val == sites[j].val
-				if !sameVal && (sites[i].recv != sites[j].recv || strings.Contains(sites[i].recv, "opaque(")) {
+				// elements of one collection visited by two separate loops (pre-sizing pass + writing pass)
+				sameColl := false
+				if ci, cj := sites[i].coll, sites[j].coll; ci != "" && ci == cj && (sites[i].val == nil || sites[i].val != sites[j].val) && sites[i].in != sites[j].in && !sameCycle(sites[i].in.Block(), sites[j].in.Block()) {
+					sameColl = true
+				}
+				if !sameVal && !sameColl && (sites[i].recv != sites[j].recv || strings.Contains(sites[i].recv, "opaque(")) {
 					continue
 				}
 				a, b := sites[i].in, sites[j].in
@@ -619,4 +660,45 @@ func shortRecv(s string) string {
 		return s
 	}
 	return "receiver." + strings.Join(fs, ".")
+}
+
+// collectionOf: for a value that is an element of a collection being iterated (x[i], range element), the symx
+// of the collection; "" otherwise
+func collectionOf(c *Ctx, v ssa.Value) string {
+	if v == nil {
+		return ""
+	}
+	for i := 0; i < 4; i++ {
+		switch t := v.(type) {
+		case *ssa.UnOp:
+			v = t.X
+			continue
+		case *ssa.MakeInterface:
+			v = t.X
+			continue
+		case *ssa.IndexAddr:
+			if _, isK := intConst(t.Index); isK {
+				return ""
+			}
+			s := c.Sx().Of(t.X).String()
+			if strings.Contains(s, "opaque(") {
+				return ""
+			}
+			return s
+		case *ssa.Index:
+			s := c.Sx().Of(t.X).String()
+			if strings.Contains(s, "opaque(") {
+				return ""
+			}
+			return s
+		case *ssa.Extract:
+			if nx, ok := t.Tuple.(*ssa.Next); ok {
+				if rg, ok := nx.Iter.(*ssa.Range); ok {
+					return c.Sx().Of(rg.X).String()
+				}
+			}
+		}
+		break
+	}
+	return ""
 }
